@@ -46,7 +46,13 @@ impl<'a> Iterator for RuntimeGuardIter<'a> {
                 self.failed = true;
                 Some(Err(err))
             }
-            None => None,
+            None => {
+                self.failed = true;
+                match self.params.check_row_budget(self.stage) {
+                    Ok(()) => None,
+                    Err(err) => Some(Err(err)),
+                }
+            }
         }
     }
 }
